@@ -16,8 +16,11 @@ Inductive ccase :=
 | CField (fs : list (string * mty)) (k : string)
 | CUnzip (ea eb : mty) (n : Z)             (* unzip(zip(a, b)) *)
 | CMap (ea ret : mty) (n : Z)              (* a.map(f), f : ea -> ret *)
-| CUnsized (inner : bool) (param_first : bool) (ea eb : mty) (m : Z).
+| CUnsized (inner : bool) (param_first : bool) (ea eb : mty) (m : Z)
+| CNewLiteralAndPublic (tys : list mty).
     (* inside a function: zip / inner product of an array PARAMETER (no size) with a captured array of size m *)
+    (* CNewLiteralAndPublic: Array.new of a literal and a public value of one base type: different DSL types, though their
+       MIR type names coincide *)
 
 Inductive expect := MustReject | Accept (result : mty) (index : option Z).
 
@@ -63,6 +66,7 @@ Definition coll_spec (c : ccase) : expect :=
   | CUnzip ea eb n => Accept (TyTuple (TyArray ea (Some n)) (TyArray eb (Some n))) None
   | CMap ea ret n => Accept (TyArray ret (Some n)) None
   | CUnsized _ _ _ _ _ => MustReject       (* no size and size m are different sizes *)
+  | CNewLiteralAndPublic _ => MustReject
   end.
 
 (* what the implementation did: rejected, or the type of the single output (and the index
